@@ -127,6 +127,9 @@ carquet_status_t carquet_snappy_decompress(
         } else if (type == SNAPPY_COPY_1) {
             /* Copy with 1-byte offset */
             size_t len = ((tag >> 2) & 0x07) + 4;
+            if (ip + 1 > iend) {
+                return CARQUET_ERROR_INVALID_COMPRESSED_DATA;
+            }
             size_t offset = ((tag >> 5) << 8) | *ip++;
 
             if (offset == 0 || offset > (size_t)(op - dst)) {
